@@ -297,6 +297,17 @@ def scan_filter_cases():
                 yield Always(mk + big + [[b'scan', cur, b'match', pat, b'count', cnt], [b'sscan', b'bs', cur, b'match', pat, b'count', cnt],
                                          [b'hscan', b'bh', cur, b'match', pat, b'count', cnt], [b'zscan', b'bz', cur, b'match', pat, b'count', cnt],
                                          [b'scan', cur, b'match', pat, b'count', cnt, b'type', b'set']])
+    # interleaved iterations on one connection: every page is computed from the CURRENT contents of the key / database it names, whatever was iterated before
+    for c1, k1, k2 in ((b'sscan', b'bs', b'ks'), (b'hscan', b'bh', b'kh'), (b'zscan', b'bz', b'kz')):
+        yield Always(mk + big + [[c1, k1, b'0', b'count', b'1'], [c1, k2, b'0', b'count', b'1'], [c1, k1, b'1', b'count', b'10'], [c1, k2, b'1', b'count', b'10'],
+                                 [c1, k1, b'0', b'count', b'2'], [c1, b'missing', b'0'], [c1, k1, b'2', b'count', b'2']])
+        yield Always(mk + big + [[c1, k1, b'0', b'count', b'1'], [b'del', k1], [c1, k1, b'1', b'count', b'10'], [c1, k2, b'0']])
+    yield Always(mk + big + [[b'sscan', b'bs', b'0', b'count', b'1'], [b'sadd', b'bs', b'a0', b'zz'], [b'sscan', b'bs', b'1', b'count', b'10'], [b'srem', b'bs', b'm1', b'm2', b'm3'],
+                             [b'sscan', b'bs', b'1', b'count', b'10']])
+    yield Always(mk + [[b'select', b'1'], [b'mset', b'x1', b'1', b'x2', b'2', b'x3', b'3'], [b'select', b'0'], [b'scan', b'0', b'count', b'2'], [b'select', b'1'], [b'scan', b'0', b'count', b'1'],
+                       [b'select', b'0'], [b'scan', b'2', b'count', b'100'], [b'select', b'1'], [b'scan', b'1', b'count', b'100'], [b'scan', b'2', b'count', b'100', b'match', b'x*']])
+    yield Always(mk + [[b'scan', b'0', b'count', b'3'], [b'set', b'aa', b'1'], [b'del', b'ka'], [b'scan', b'3', b'count', b'100'], [b'rename', b'kb', b'zz9'], [b'scan', b'3', b'count', b'100'],
+                       [b'scan', b'0', b'count', b'5', b'type', b'string'], [b'flushdb'], [b'scan', b'5'], [b'set', b'n', b'1'], [b'scan', b'0', b'type', b'string']])
     for cnt in (b'9223372036854775807', b'9223372036854775806', b'4611686018427387904'):
         for cur in (b'0', b'1', b'3'):
             yield Always(mk + [[b'scan', cur, b'match', b'*', b'count', cnt], [b'scan', cur, b'type', b'string', b'count', cnt], [b'scan', cur, b'count', cnt],
@@ -634,4 +645,4 @@ def late_error_cases():
         pre = mk + [[b'zadd', b'zz', b'1', b'm'], [b'sadd', b'ss', b'm'], [b'rpush', b'll', b'2', b'1'], [b'rpush', b'lbad', b'1', b'x'], [b'set', b'str', b'v']]
         for f in bad:
             case = pre + [list(f), [b'type', b'k'], [b'ttl', b'k'], [b'dbsize']]
-            yield Always(case) if tname in ('string+ttl', 'list') else case
+            yield Always(case) if tname in ('string+ttl', 'list', 'missing') else case
